@@ -147,12 +147,55 @@ func flagsOf(fn *ssa.Function) *flagSet {
 			}
 		}
 	}
+	// selector variables: `reason := ""; switch {case a: reason = "x" …}; if reason != "" {…}` — a
+	// phi of constants compared with a constant; only its provenance is tracked
+	for _, b := range fn.Blocks {
+		for _, in := range b.Instrs {
+			if iff, ok := in.(*ssa.If); ok {
+				u, _ := stripBool(iff.Cond)
+				if phi, _ := constComparedPhi(u); phi != nil {
+					add(phi)
+				}
+			}
+		}
+	}
 	for i, v := range fs.vals {
 		if in, ok := v.(ssa.Instruction); ok && in.Block() != nil {
 			fs.byBlock[in.Block()] = append(fs.byBlock[in.Block()], i)
 		}
 	}
 	return fs
+}
+
+// constComparedPhi: v is `phi == const` / `phi != const` (either order) where the
+// phi has at least one constant incoming operand; returns the phi and the constant.
+func constComparedPhi(v ssa.Value) (*ssa.Phi, *ssa.Const) {
+	bo, ok := v.(*ssa.BinOp)
+	if !ok || (bo.Op != token.EQL && bo.Op != token.NEQ) {
+		return nil, nil
+	}
+	phi, _ := bo.X.(*ssa.Phi)
+	k, _ := bo.Y.(*ssa.Const)
+	if phi == nil || k == nil {
+		phi, _ = bo.Y.(*ssa.Phi)
+		k, _ = bo.X.(*ssa.Const)
+	}
+	if phi == nil || k == nil {
+		return nil, nil
+	}
+	for _, e := range phi.Edges {
+		if _, isC := e.(*ssa.Const); isC {
+			return phi, k
+		}
+	}
+	return nil, nil
+}
+
+func constEqual(a, b *ssa.Const) bool {
+	if a.Value == nil || b.Value == nil {
+		return a.Value == nil && b.Value == nil
+	}
+	return a.Value.Kind() == b.Value.Kind() && a.Value.ExactString() == b.Value.ExactString()
 }
 
 const (
@@ -200,6 +243,18 @@ func (fs *flagSet) transfer(b *ssa.BasicBlock, si int, val []byte) ([]byte, bool
 					return nil, false
 				}
 				nv[k] = fOf(want)
+			} else if phi, kc := constComparedPhi(u); phi != nil {
+				// a selector compared with a constant: decided by the operand the phi took
+				if k, ok := fs.idx[phi]; ok {
+					if prov := nv[len(fs.vals)+k]; prov > 0 && int(prov) <= len(phi.Edges) {
+						if inc, isC := phi.Edges[prov-1].(*ssa.Const); isC {
+							truth := constEqual(inc, kc) == (u.(*ssa.BinOp).Op == token.EQL)
+							if truth != want {
+								return nil, false
+							}
+						}
+					}
+				}
 			}
 		}
 	}
